@@ -312,6 +312,39 @@ def gen_launch_trace(rng):
     return ops
 
 
+def gen_launch_idle_trace(rng):
+    """C09 / C03: the launch batch is accepted when there is nothing left to wait for - every defined shard is ALREADY fully reporting
+    (or no shard is defined at all) - and from then on only reports WITHOUT shard entries arrive (an idle NodeHost, a NodeHost whose
+    replicas are not running right now).  Whether the deadline is cancelled is then decided by a report that changes nothing in the
+    view; run past the deadline, with snapshot forks on both sides of it."""
+    w = World(rng, nhosts=rng.randint(3, 5), nshards=rng.randint(1, 3))
+    kind = rng.choice(["all-reported", "all-reported", "none-defined", "one-missing"])
+    ops = (w.shard_ops() if kind != "none-defined" else []) + ticks(rng.choice([1, 2, 3]))
+    hosts = list(w.hosts)
+    miss = rng.choice(sorted(w.hist)) if kind == "one-missing" else None
+    if kind != "none-defined":
+        for a in hosts:
+            fr = full_report(w, a)
+            if miss is not None:                       # control: one defined shard has a silent member - the deadline must stay armed
+                fr["infos"] = [ci for ci in fr["infos"] if not (ci["shard"] == miss and ci["replica"] == min(w.hist[miss][-1][1]))]
+                fr["shard_ids"] = sorted({ci["shard"] for ci in fr["infos"]})
+            ops += [("R", fr), ("LC",)]
+        ops += ticks(rng.choice([0, 1, 2]))
+    ops += [("Q", w.launch_batch()), ("LK", 2), ("LC",)]
+    idle_addr = rng.choice([w.H + 1, w.H + 1, hosts[0]])
+    idle = dict(addr=idle_addr, rpc=100 + idle_addr, region=1, plog_incl=rng.random() < 0.3, plog=[], shard_ids=[], infos=[])
+    fork_t = rng.choice([None, 1, LDT - 1, LDT, LDT + 1])
+    silent = rng.random() < 0.15                       # no report at all after the launch
+    for t in range(0, LDT + 4):
+        if fork_t == t:
+            ops.append(("FORK",))
+        if not silent and (t == 0 or rng.random() < 0.4):
+            ops += [("R", dict(idle)), ("LC",)]
+        ops.append(("T",))
+    ops += [("LS",), ("LK", 2), ("LC",), ("H",), ("SNAP",), ("R", full_report(w, hosts[0])), ("LC",), ("T",)]
+    return ops
+
+
 def gen_chaos_trace(rng, length=50):
     """C03: everything mixed, including inconsistent reports that trip the consistency panics"""
     w = World(rng)
